@@ -196,6 +196,15 @@ func runC01(c *core.Ctx) {
 			}
 		}
 	}
+	// trust reconfiguration on a long-lived SP: keys are added, retired and replaced between deliveries,
+	// by editing the metadata object in place, by swapping the pointer, and by (un)setting the pin;
+	// acceptance is judged against the roots configured at the moment of delivery
+	nrot := c.Pick(60, 3000)
+	for i := 0; i < nrot; i++ {
+		if mine() {
+			c01Rotation(c, o)
+		}
+	}
 	// depth 2-3
 	n := c.Pick(12000, 1200000)
 	for i := 0; i < n; i++ {
@@ -295,4 +304,121 @@ func c01Deliver(c *core.Ctx, o *so.Oracle, sp *saml.ServiceProvider, b c01Base, 
 		c.Observe("transformations_that_left_genuine_content_acceptable", strings.Fields(ops[len(ops)-1])[0])
 	}
 	c.SampleSome(map[string]any{"case": desc, "accepted": true})
+}
+
+// c01Rotation drives one long-lived SP through a sequence of trust reconfigurations and deliveries.
+func c01Rotation(c *core.Ctx, o *so.Oracle) {
+	sp := so.NewSP("meta-two-signing", fx.K("sp_rsa2048"))
+	roots := []string{"idp_s1", "idp_s2"}
+	pool := []string{"idp_s1", "idp_s2", "idp_e", "att_x"}
+	mode := "meta"
+	var retired []string
+	kdFor := func(names []string) []saml.KeyDescriptor {
+		var out []saml.KeyDescriptor
+		for _, n := range names {
+			out = append(out, saml.KeyDescriptor{Use: "signing", KeyInfo: saml.KeyInfo{X509Data: saml.X509Data{X509Certificates: []saml.X509Certificate{{Data: fx.K(n).CertB64()}}}}})
+		}
+		// an encryption-use descriptor is always present and never a root
+		out = append(out, saml.KeyDescriptor{Use: "encryption", KeyInfo: saml.KeyInfo{X509Data: saml.X509Data{X509Certificates: []saml.X509Certificate{{Data: fx.K("idp_e").CertB64()}}}}})
+		return out
+	}
+	steps := 5 + c.Rng.Intn(6)
+	for s := 0; s < steps; s++ {
+		// reconfigure (the first step keeps the initial configuration so that something is verified before any change)
+		how := "initial"
+		if s > 0 {
+			var next []string
+			for _, n := range []string{"idp_s1", "idp_s2", "att_xp"} { // att_xp stands for a key the deployment legitimately adds later
+				if c.Rng.Intn(2) == 0 {
+					next = append(next, n)
+				}
+			}
+			if len(next) == 0 {
+				next = []string{[]string{"idp_s1", "idp_s2"}[c.Rng.Intn(2)]}
+			}
+			for _, r := range roots {
+				if !contains(next, r) && !contains(retired, r) {
+					retired = append(retired, r)
+				}
+			}
+			sp.IDPCertificate, sp.IDPCertificateFingerprint, sp.IDPCertificateFingerprintAlgorithm = nil, nil, nil
+			switch k := c.Rng.Intn(6); {
+			case k == 0: // swap the metadata pointer
+				md := so.IDPMetadata("meta-two-signing")
+				md.IDPSSODescriptors[0].KeyDescriptors = kdFor(next)
+				sp.IDPMetadata = md
+				mode, how = "meta", "new-metadata-object"
+			case k == 1: // pin one certificate; metadata keeps the old roots and must be ignored
+				next = next[:1]
+				pin := fx.K(next[0]).CertB64()
+				sp.IDPCertificate = &pin
+				mode, how = "pin", "pinned-certificate"
+			case k == 2:
+				next = next[:1]
+				fp, alg := so.Fingerprint(fx.K(next[0]).Cert.Raw, []string{"sha256", "sha512"}[c.Rng.Intn(2)])
+				sp.IDPCertificateFingerprint, sp.IDPCertificateFingerprintAlgorithm = &fp, &alg
+				mode, how = "fingerprint", "fingerprint"
+			case k == 3: // edit the certificate data of existing descriptors in place (same slice, same length where possible)
+				kds := sp.IDPMetadata.IDPSSODescriptors[0].KeyDescriptors
+				newk := kdFor(next)
+				if len(kds) == len(newk) {
+					for i := range kds {
+						kds[i].Use = newk[i].Use
+						kds[i].KeyInfo.X509Data.X509Certificates[0].Data = newk[i].KeyInfo.X509Data.X509Certificates[0].Data
+					}
+					how = "certificate-data-edited-in-place"
+				} else {
+					sp.IDPMetadata.IDPSSODescriptors[0].KeyDescriptors = newk
+					how = "descriptor-slice-replaced-in-place"
+				}
+				mode = "meta"
+			default: // replace the descriptor slice on the same metadata object
+				sp.IDPMetadata.IDPSSODescriptors[0].KeyDescriptors = kdFor(next)
+				mode, how = "meta", "descriptor-slice-replaced-in-place"
+			}
+			roots = next
+		}
+		c.Observe("c01_reconfigurations", how)
+		// deliveries: prefer retired keys, then current roots, then never-trusted keys
+		nd := 1 + c.Rng.Intn(3)
+		for d := 0; d < nd; d++ {
+			var signer string
+			switch r := c.Rng.Intn(5); {
+			case r < 2 && len(retired) > 0:
+				signer = retired[c.Rng.Intn(len(retired))]
+			case r < 4:
+				signer = roots[c.Rng.Intn(len(roots))]
+			default:
+				signer = pool[c.Rng.Intn(len(pool))]
+			}
+			b := c01Base{trust: so.Trust{Name: fmt.Sprintf("rotating(%s:%s via %s, step %d)", mode, strings.Join(roots, "+"), how, s), Roots: roots},
+				signer: signer, layout: c.Rng.Intn(3), enc: c.Rng.Intn(3) == 0, nA: 1, method: so.RSAMethods[c.Rng.Intn(4)]}
+			o.Reset()
+			raw, err := c01Build(o, b)
+			if err != nil {
+				c.Inconclusive("build: " + err.Error())
+				return
+			}
+			var ops []string
+			if !contains(roots, signer) {
+				ops = []string{"signed-by-key-not-currently-trusted:" + signer}
+				if contains(retired, signer) {
+					ops = []string{"signed-by-retired-key:" + signer}
+					c.Count("deliveries_signed_by_retired_key")
+				}
+			}
+			entry := c.Rng.Intn(2)
+			c01Deliver(c, o, sp, b, entry, raw, ops)
+		}
+	}
+	c.Count("trust_rotation_sequences")
+}
+
+func contains(l []string, s string) bool {
+	for _, x := range l {
+		if x == s {
+			return true
+		}
+	}
+	return false
 }
